@@ -487,7 +487,10 @@ _c19 = {"UNITS": [], "VX_NO_REUSE": True}
 if not globals().get("VX_NO_REUSE"):     # reuse is never transitive: the other spec is loaded without ITS reuse blocks (no cycles)
     exec(compile(open("/verif/specs/C19/spec.py").read(), "/verif/specs/C19/spec.py", "exec"), _c19)
 for _u in _c19["UNITS"]:
-    if _u.name in ("state.resume_pu_direct", "state.resume_internal", "state.suspend_internal", "state.suspend_pu_internal", "state.sched_suspend", "state.sched_resume"):
+    # loop.prologue / loop.iteration (added after seeded change C05-7 was missed): stop() joins the workers; a worker leaves
+    # scheduling_loop only with fresh evidence that its queues are empty, so stop() does not return with a task still queued
+    if _u.name in ("state.resume_pu_direct", "state.resume_internal", "state.suspend_internal", "state.suspend_pu_internal", "state.sched_suspend", "state.sched_resume",
+                   "loop.prologue", "loop.iteration"):
         _u.name = "c19." + _u.name
         _u.template = "../C19/" + _u.template
         UNITS.append(_u)
